@@ -303,7 +303,7 @@ def bisect_death(prop, tier, seed, binary, first):
     total = int(os.environ.get("VERIF_RUNS") or 0)
     if not total:
         # ask the binary for its default run count through a tiny batch
-        total = {"quick": 100000, "thorough": 25000000}[tier]
+        total = {"quick": 200000, "thorough": 25000000}[tier]
 
     def batch(lo, hi):
         out = os.path.join(REPLAYS, "tmp", "bisect-%d.json" % os.getpid())
